@@ -810,6 +810,12 @@ class GroupNorm(Module):
       reduction_axes = list(range(1, x.ndim - 1)) + [-1]
     reduction_axes = _canonicalize_axes(x.ndim, reduction_axes)
 
+    if reduction_axes[-1] != (self.feature_axis % x.ndim):
+      raise ValueError(
+        'The reduction axes must include the final dimension '
+        'as this is assumed to be the feature axis.'
+      )
+
     group_shape = x.shape[:-1] + (self.num_groups, self.group_size)
     if mask is not None:
       mask = mask.reshape(mask.shape[:-1] + (self.num_groups, self.group_size))
@@ -823,8 +829,8 @@ class GroupNorm(Module):
       use_fast_variance=self.use_fast_variance,
       mask=mask,
     )
-    mean = jnp.repeat(mean, self.group_size, axis=1)
-    var = jnp.repeat(var, self.group_size, axis=1)
+    mean = jnp.repeat(mean, self.group_size, axis=-1)
+    var = jnp.repeat(var, self.group_size, axis=-1)
     return _normalize(
       x,
       mean,
